@@ -50,4 +50,18 @@ def plan(tier, seed):
              for i, part in enumerate(split(regs, 16))]
     cl = [r for r in regs if '"f32|' in r or '"f80|' in r][::3][:40]
     units.append(Unit('C09-clang', 'clang', 'props/C09.h', cl, rc_cases=cases, enum_max=2 ** 16, chunk=8))
+    # every shift distance under every rounding mode: finer source -> exponent 0, and floating point -> every destination exponent
+    sweeps = []
+    pE = 'cnl::power<E>'
+    for tag, tn in TAGS:
+        t = tn.replace('tie_to_pos_inf', 'tie')
+        sweeps += [
+            ('Sw_%s_s32' % t, 'c09::Conv<%s, cnl::scaled_integer<int, %s>, %s, 0>' % (tag, pE, sc(S32, 0)), 'convert|%s|int:E|int:0' % tn, -30, -1),
+            ('Sw_%s_s64' % t, 'c09::Conv<%s, cnl::scaled_integer<long, %s>, %s, 0>' % (tag, pE, sc(S32, 0)), 'convert|%s|long:E|int:0' % tn, -30, -1),
+            ('Sw_%s_s64l' % t, 'c09::Conv<%s, cnl::scaled_integer<long, %s>, %s, 0>' % (tag, pE, sc(S64, 0)), 'convert|%s|long:E|long:0' % tn, -62 if tn in ('native', 'neg_inf') else -30, -1),  # nearest / tie: shifts >= 31 are rejected at compile time
+            ('Sw_%s_u16r' % t, 'c09::Conv<%s, cnl::scaled_integer<unsigned short, %s>, cnl::scaled_integer<cnl::rounding_integer<unsigned char, %s>, cnl::power<0>>, 1>' % (tag, pE, tag),
+             'ctor|%s|unsigned_short:E|scaled_rounding_unsigned_char:0' % tn, -15, -1),
+            ('Sw_%s_f64' % t, 'c09::Conv<%s, double, cnl::scaled_integer<int, %s>, 0>' % (tag, pE), 'convert|%s|f64|int:E' % tn, -40, 24),
+        ]
+    units += sweep_units('C09', 'props/C09.h', sweeps, cases * 2, nunits=8, keep=(lambda i, r: i % 2 == 0) if quick else None)
     return dict(units=units, rule=RULE, assumptions=['long double arithmetic of the host (x87 80-bit) is what CNL computes with; the oracle never uses floating-point arithmetic'])
